@@ -39,6 +39,7 @@ type SVal struct {
 	Fn                  *ssa.Function
 	Bind                []*SVal
 	Rat                 *ratVal // exact rational view of a float value: Num/Den
+	Str                 *string // constant strings: the literal
 }
 
 // ratVal: a float64 value known to equal Num/Den exactly (Num signed 64-bit, Den > 0 constant).
@@ -55,6 +56,7 @@ type Addr struct {
 	Idx    *Term      // Ref index into the class array
 	Elem   *Term      // BV64 element index (mem: classes)
 	Leaf   bool       // a scalar field inside a struct (not representable by Ref alone)
+	Box    bool       // inside a value boxed in an interface (immutable)
 }
 
 var BV64 = BV(64)
@@ -303,12 +305,23 @@ func (e *Encoder) cellAddr(ref *Term, t types.Type) *Addr {
 
 // boxAddr: the immutable cell holding a non-pointer value boxed in an interface.
 func (e *Encoder) boxAddr(ref *Term, t types.Type) *Addr {
-	a := &Addr{Typ: t, Ref: ref}
+	a := &Addr{Typ: t, Ref: ref, Box: true}
 	if !isAggregate(t) {
 		a.Prefix = "box:" + typeKey(t)
 		a.Idx = ref
 	}
 	return a
+}
+
+// boxField: the fields of a struct boxed in an interface are immutable too.
+func (e *Encoder) boxField(parent, child *Addr) *Addr {
+	if parent.Box {
+		child.Box = true
+		if child.Prefix != "" {
+			child.Prefix = "box:" + child.Prefix
+		}
+	}
+	return child
 }
 
 // elemAddr: address of element i of the sequence stored at base (elements of type et).
@@ -376,7 +389,7 @@ func (e *Encoder) load(st *State, a *Addr) *SVal {
 	case *types.Struct:
 		v := &SVal{K: KStruct, Typ: a.Typ}
 		for i := 0; i < u.NumFields(); i++ {
-			v.Fields = append(v.Fields, e.load(st, e.fieldAddr(a.Ref, a.Typ, i)))
+			v.Fields = append(v.Fields, e.load(st, e.boxField(a, e.fieldAddr(a.Ref, a.Typ, i))))
 		}
 		return v
 	case *types.Array:
@@ -403,7 +416,7 @@ func (e *Encoder) store(st *State, a *Addr, v *SVal) {
 			panic("store struct: value shape mismatch for " + a.Typ.String())
 		}
 		for i := 0; i < u.NumFields(); i++ {
-			e.store(st, e.fieldAddr(a.Ref, a.Typ, i), v.Fields[i])
+			e.store(st, e.boxField(a, e.fieldAddr(a.Ref, a.Typ, i)), v.Fields[i])
 		}
 		return
 	case *types.Array:
